@@ -44,32 +44,12 @@ M("c01-exit-first-empty", "C01", ("pyramid.py", """            pos = ready_queue
 M("c01-prereadied-mirrored", "C01", ("pyramid.py", "                        pre_readied |= 1 << i", "                        pre_readied |= 1 << (3 - i)"))
 M("c01-serial-live-and", "C01", ("pyramid.py", "                    is_live = data[0] or data[1] or data[2] or data[3]\n\n                    if is_live:\n                        callback(pos)", "                    is_live = data[0] or data[1] or data[2] or data[3]\n\n                    if data[0] or data[3] or pos.n < self.depth - 1 and is_live:\n                        callback(pos)"))
 
-# ---- C03
-_LEAVES_TAIL = """                    ready_queue.put((pos, tile))
-                    progress.update(1)
-
-                riter.set_data(None)
-
-        # All done!
-
-        ready_queue.close()
-        ready_queue.join_thread()
-        done_event.set()
-"""
-M("c03-done-before-flush", "C03", ("pyramid.py", _LEAVES_TAIL, _LEAVES_TAIL.replace("""        ready_queue.close()
-        ready_queue.join_thread()
-        done_event.set()
-""", """        done_event.set()
-        ready_queue.close()
-        ready_queue.join_thread()
-""")))
-M("c03-no-join-thread", "C03", ("transform.py", "    queue.close()\n    queue.join_thread()\n    done_event.set()", "    queue.close()\n    done_event.set()"))
-M("c03-item-twice", "C03", ("pyramid.py", "                    ready_queue.put((pos, tile))\n", "                    ready_queue.put((pos, tile))\n                    if pos.x == 3 and pos.y == 1:\n                        ready_queue.put((pos, tile))\n"))
-M("c03-last-leaf-skipped", "C03", ("pyramid.py", """            for pos, tile, is_leaf, _data in riter:
-                if is_leaf:
-                    ready_queue.put((pos, tile))""", """            for pos, tile, is_leaf, _data in riter:
-                if is_leaf and (pos.x + 1 < 2**pos.n or pos.y + 1 < 2**pos.n or pos.n < 2):
-                    ready_queue.put((pos, tile))"""))
+# ---- C03 (patterns refer to the tree after the worker-failure fix: the shutdown handshake lives in par_util.finish_workers)
+M("c03-done-before-flush", "C03", ("par_util.py", "    queue.close()\n\n    flusher = threading.Thread(target=queue.join_thread, daemon=True)\n    flusher.start()\n", "    done_event.set()\n    queue.close()\n\n    flusher = threading.Thread(target=queue.join_thread, daemon=True)\n    flusher.start()\n"))
+M("c03-no-join-thread", "C03", ("par_util.py", "    while flusher.is_alive():\n        flusher.join(timeout=1)\n        check_workers(workers, (queue,))\n", ""))
+M("c03-item-twice", "C03", ("pyramid.py", "                    put_to_workers(ready_queue, (pos, tile), workers)\n", "                    put_to_workers(ready_queue, (pos, tile), workers)\n                    if pos.x == 3 and pos.y == 1:\n                        put_to_workers(ready_queue, (pos, tile), workers)\n"))
+M("c03-last-leaf-skipped", "C03", ("pyramid.py", "                if is_leaf:\n                    put_to_workers(ready_queue, (pos, tile), workers)", "                if is_leaf and (pos.x + 1 < 2**pos.n or pos.y + 1 < 2**pos.n or pos.n < 2):\n                    put_to_workers(ready_queue, (pos, tile), workers)"))
+M("c03-no-join-workers", "C03", ("par_util.py", "    done_event.set()\n\n    for w in workers:\n        w.join()", "    done_event.set()\n\n    for w in workers[1:]:\n        w.join()"))
 M("c03-mtan-worker-exit-empty", "C03", ("multi_tan.py", """                image, desc = queue.get(True, timeout=1)
         except Empty:
             if done_event.is_set():
@@ -77,7 +57,6 @@ M("c03-mtan-worker-exit-empty", "C03", ("multi_tan.py", """                image
             continue""", """                image, desc = queue.get(True, timeout=1)
         except Empty:
             break"""))
-M("c03-mwcs-no-join-workers", "C03", ("multi_wcs.py", "        done_event.set()\n\n        for w in workers:\n            w.join()", "        done_event.set()\n\n        for w in workers[1:]:\n            w.join()"))
 M("c03-leaf-wrong-tile", "C03", ("pyramid.py", "        callback(*args)", "        callback(args[0], args[1] if args[1] is None or args[0].x % 4 else args[1]._replace(increasing=not args[1].increasing))"))
 
 # ---- C19 (regressions of the worker-failure reporting)
@@ -192,7 +171,8 @@ M("c16-cd12-not-negated", "C16", ("image.py", '    h["CD1_2"] *= -1\n', ""))
 M("c16-crpix-off-by-one", "C16", ("image.py", '        image_height + 1 - h["CRPIX2"]', '        image_height - h["CRPIX2"]'))
 M("c16-parity-sign", "C16", ("image.py", "    det = cd1_1 * cd2_2 - cd1_2 * cd2_1\n", "    det = cd1_1 * cd2_2 + cd1_2 * cd2_1\n"))
 M("c16-desc-uses-width", "C16", ("image.py", "        self.wcs = _flip_wcs_parity(self.wcs, self.height)", "        self.wcs = _flip_wcs_parity(self.wcs, self.width)"))
-M("c16-rows-not-reversed", "C16", ("image.py", "        self._array = self.asarray()[::-1]\n        return self", "        self._array = self.asarray()[::-1, ::-1] if self.asarray().shape[1] > 300 else self.asarray()[::-1]\n        return self"))
+M("c16-rows-not-reversed", "C16", ("image.py", "        self._array = self.asarray()[::-1]\n\n        # Ensure", "        self._array = self.asarray()[::-1, ::-1] if self.asarray().shape[1] > 300 else self.asarray()[::-1]\n\n        # Ensure"))
+M("c16-pil-left-stale", "C16", ("image.py", "        # it still has the rows in the old order.\n        self._pil = None\n", "        # it still has the rows in the old order.\n"))
 M("c16-cd22-only", "C16", ("image.py", '    h["CD2_2"] *= -1\n', '    h["CD2_2"] *= -1\n    h["CD2_1"] *= 1.0 if abs(h["CD2_1"]) < 1e-12 else (1 + 1e-5)\n'))
 
 # ---- C18
